@@ -153,7 +153,22 @@ def _post_inter(call):
     def key(a):
         return a[np.lexsort((a[:, 1], a[:, 0]))] if len(a) else a
 
-    ok = len(got) == len(want) and (len(want) == 0 or bool(np.all(np.abs(key(got) - key(want)) <= tol)))
+    def same_set(a, b):
+        # pair every point with an unused point of the other set within the tolerance (sorting is not safe when two
+        # crossings share an abscissa up to rounding)
+        if len(a) != len(b):
+            return False
+        used = np.zeros(len(b), bool)
+        for pnt in a:
+            dist = np.max(np.abs(b - pnt), axis=1)
+            dist[used] = np.inf
+            j = int(np.argmin(dist)) if len(b) else -1
+            if j < 0 or dist[j] > tol:
+                return False
+            used[j] = True
+        return True
+
+    ok = same_set(got, want)
     c.check("c17.intersection-set", ok, "intersection() does not return exactly the crossing points of the two polylines", n_got=int(len(got)), n_want=int(len(want)), got=key(got)[:4], want=key(want)[:4])
     c.count("c17.crossings", int(len(want)))
 
@@ -195,6 +210,7 @@ def gen_cases(tier, seed):
         )
     for i in range(60 if tier == "quick" else 1500):
         cases.append({"kind": "polylines", "judge_intersection": True, "sub": int(rng.integers(1 << 31))})
+    cases.append({"kind": "repo-tests", "judge_intersection": True, "files": ["tests/test_utils.py", "tests/test_intersection.py"], "cost": 10})
     return cases
 
 
@@ -242,6 +258,12 @@ def run_case(case, ctx):
     from virocon import calculate_design_conditions
     from virocon._intersection import intersection
 
+    if case["kind"] == "repo-tests":
+        from .. import repotests
+
+        ctx.cls("shape", "repository-tests")
+        repotests.run(ctx, case["files"])
+        return
     rng = np.random.default_rng(case["sub"])
     if case["kind"] == "polylines":
         n1, n2 = int(rng.integers(2, 40)), int(rng.integers(2, 40))
